@@ -322,6 +322,8 @@ class RopeModel:
             return o.f['parts'][0][0]
         if k == -1 and o.f['parts'] and isinstance(o.f['parts'][-1], str):
             return o.f['parts'][-1][-1]
+        if isinstance(k, int) and k >= 0 and o.f['parts'] and isinstance(o.f['parts'][0], str) and k < len(o.f['parts'][0]):
+            return o.f['parts'][0][k]          # a character of the leading literal
         raise Unsupported('rope[i]')
 
     @staticmethod
